@@ -2,6 +2,7 @@
    store/disk.go (Gen/FactsStore.v): block size, header bytes, nonce length, GCM overhead. *)
 From Coq Require Import List NArith Arith Bool Lia.
 From Gluon Require Import Model.StoreFrame Proofs.StoreFrameProofs Proofs.StoreToy Gen.FactsStore.
+From Gluon Require Import Model.LockTable Proofs.LockTableProofs.
 Import ListNotations.
 Local Open Scope nat_scope.
 
@@ -133,4 +134,19 @@ Proof.
     (toy_altered 3 [9%N]), [5%N; 7%N].
   split; [lia|]. split; [exact toy_assumptions|]. split; [reflexivity|].
   split; [vm_compute; discriminate|]. split; [vm_compute; reflexivity|discriminate].
+Qed.
+
+(* ---------- the lock table of WriteControlledStore with the protocol the translator found in the source ---------- *)
+Definition lock_table_structure : bool :=
+  release_deletes_entry_and_pools && acquire_is_one_critical_section && ops_unlock_before_release.
+
+Lemma lock_table_structure_ok : lock_table_structure = true.
+Proof. vm_compute. reflexivity. Qed.
+
+(* releaseSyncRef decrements inside the critical section and acquireSyncRef resets the counter of an inserted object:
+   then every schedule keeps writers alone (fails to type-check when one of the two facts is false) *)
+Lemma exclusive_code : forall n sched,
+  exclusive (run release_decrements_under_lock acquire_resets_counter (init n) sched).
+Proof.
+  change release_decrements_under_lock with true. change acquire_resets_counter with true. exact exclusive_fixed.
 Qed.
